@@ -1,6 +1,7 @@
 package simkit
 
 import (
+	"bytes"
 	"context"
 	"encoding/hex"
 	"fmt"
@@ -401,7 +402,28 @@ func (c *Conn) SendRequestAsync(ctx context.Context, addr string, req *tikvrpc.R
 	}()
 }
 
+// firstKeyOf names a request by ONE of its keys: the smallest. (Several requests of the library list their keys in the
+// iteration order of a Go map - the keys of a pessimistic rollback, for one - so "the first key" would make the
+// request's identity, and with it its latency and its fate, differ between two executions of the same run.)
 func firstKeyOf(req *tikvrpc.Request) []byte {
+	minOf := func(ks [][]byte) []byte {
+		var m []byte
+		for i, k := range ks {
+			if i == 0 || bytes.Compare(k, m) < 0 {
+				m = k
+			}
+		}
+		return m
+	}
+	minMut := func(ms []*kvrpcpb.Mutation) []byte {
+		var m []byte
+		for i, x := range ms {
+			if i == 0 || bytes.Compare(x.Key, m) < 0 {
+				m = x.Key
+			}
+		}
+		return m
+	}
 	switch r := req.Req.(type) {
 	case *kvrpcpb.GetRequest:
 		return r.Key
@@ -409,33 +431,33 @@ func firstKeyOf(req *tikvrpc.Request) []byte {
 		return r.StartKey
 	case *kvrpcpb.PrewriteRequest:
 		if len(r.Mutations) > 0 {
-			return r.Mutations[0].Key
+			return minMut(r.Mutations)
 		}
 	case *kvrpcpb.CommitRequest:
 		if len(r.Keys) > 0 {
-			return r.Keys[0]
+			return minOf(r.Keys)
 		}
 	case *kvrpcpb.BatchGetRequest:
 		if len(r.Keys) > 0 {
-			return r.Keys[0]
+			return minOf(r.Keys)
 		}
 	case *kvrpcpb.BatchRollbackRequest:
 		if len(r.Keys) > 0 {
-			return r.Keys[0]
+			return minOf(r.Keys)
 		}
 	case *kvrpcpb.PessimisticLockRequest:
 		if len(r.Mutations) > 0 {
-			return r.Mutations[0].Key
+			return minMut(r.Mutations)
 		}
 	case *kvrpcpb.PessimisticRollbackRequest:
 		if len(r.Keys) > 0 {
-			return r.Keys[0]
+			return minOf(r.Keys)
 		}
 	case *kvrpcpb.CheckTxnStatusRequest:
 		return r.PrimaryKey
 	case *kvrpcpb.CheckSecondaryLocksRequest:
 		if len(r.Keys) > 0 {
-			return r.Keys[0]
+			return minOf(r.Keys)
 		}
 	case *kvrpcpb.TxnHeartBeatRequest:
 		return r.PrimaryLock
@@ -443,17 +465,17 @@ func firstKeyOf(req *tikvrpc.Request) []byte {
 		return r.Key
 	case *kvrpcpb.ResolveLockRequest:
 		if len(r.Keys) > 0 {
-			return r.Keys[0]
+			return minOf(r.Keys)
 		}
 	case *kvrpcpb.ScanLockRequest:
 		return r.StartKey
 	case *kvrpcpb.FlushRequest:
 		if len(r.Mutations) > 0 {
-			return r.Mutations[0].Key
+			return minMut(r.Mutations)
 		}
 	case *kvrpcpb.BufferBatchGetRequest:
 		if len(r.Keys) > 0 {
-			return r.Keys[0]
+			return minOf(r.Keys)
 		}
 	case *kvrpcpb.RawGetRequest:
 		return r.Key
@@ -467,7 +489,7 @@ func firstKeyOf(req *tikvrpc.Request) []byte {
 		return r.StartKey
 	case *kvrpcpb.RawBatchGetRequest:
 		if len(r.Keys) > 0 {
-			return r.Keys[0]
+			return minOf(r.Keys)
 		}
 	case *kvrpcpb.RawBatchPutRequest:
 		if len(r.Pairs) > 0 {
@@ -475,7 +497,7 @@ func firstKeyOf(req *tikvrpc.Request) []byte {
 		}
 	case *kvrpcpb.RawBatchDeleteRequest:
 		if len(r.Keys) > 0 {
-			return r.Keys[0]
+			return minOf(r.Keys)
 		}
 	case *kvrpcpb.RawCASRequest:
 		return r.Key
@@ -612,6 +634,7 @@ func (c *Conn) SendRequest(ctx context.Context, addr string, req *tikvrpc.Reques
 	defer n.inflight.Add(-1)
 	n.admit(rec)
 	if rec.Fate == "cut" || rec.Fate == CrashBefore {
+		stagger(rec)
 		return nil, ErrSimCut
 	}
 	cutCh, fkey := rec.cutCh, rec.fkey
@@ -646,14 +669,17 @@ func (c *Conn) SendRequest(ctx context.Context, addr string, req *tikvrpc.Reques
 		rec.DoneAt = n.Sim.Now()
 		return r.resp, r.err
 	case <-ctx.Done():
+		stagger(rec)
 		rec.RetErr = ctx.Err()
 		rec.DoneSeq = n.Sim.Stamp()
 		return nil, ctx.Err()
 	case <-timer:
+		stagger(rec)
 		rec.RetErr = context.DeadlineExceeded
 		rec.DoneSeq = n.Sim.Stamp()
 		return nil, context.DeadlineExceeded
 	case <-cutCh:
+		stagger(rec)
 		rec.RetErr = ErrSimCut
 		rec.DoneSeq = n.Sim.Stamp()
 		return nil, ErrSimCut
@@ -661,6 +687,14 @@ func (c *Conn) SendRequest(ctx context.Context, addr string, req *tikvrpc.Reques
 		rec.RetErr = ErrSimCut
 		return nil, ErrSimCut
 	}
+}
+
+// stagger: a cancelled context, a crash of the client or a common time-out wakes every caller of that client that is
+// parked in the network at the same simulated instant; on several processors they would then run in parallel and reach
+// shared state of the library (the global random source of the back-off jitter, the region cache) in an order nobody
+// decides. Each caller therefore leaves the network a few nanoseconds of simulated time apart, in admission order.
+func stagger(rec *RPCRecord) {
+	time.Sleep(time.Duration(1+rec.ID%100000) * time.Nanosecond)
 }
 
 // arrive runs on the simulator goroutine when the request reaches the server.
